@@ -27,6 +27,9 @@ def validate(v, trace, name):
                                  for e in evs if e["ev"] == "Pair" and e["lp"] and e["ld"]][:2]
         for rej in rejects:
             e = evs[rej[0] - 1]
+            if e["ev"] == "Seg":
+                v.failure({"kind": rej[1], "kinds": "".join(e["kinds"])[:40]}, {"event": e})
+                continue
             v.failure({"kind": rej[1], "p_tail": e.get("p", "")[-24:], "d_head": e.get("d", "")[:24]}, {"event": e})
     return len(distinct)
 
@@ -43,6 +46,21 @@ def run(v):
         raise common.ToolError("vacuous MC_Paragraphs run")
     v.add_mc(f"MC_Paragraphs/{t}", r, "every paragraph stem (<= MaxP classes) + '.\\n\\n' followed by every text of <= MaxD "
              "classes: tokens(P o D) = tokens(P) o shift(tokens(D)) through the transcribed lexer and condensing passes")
+    r2 = common.tlc(os.path.join(SPEC, "mc", "MC_Segments.tla"), os.path.join(SPEC, "mc", f"MC_Segments_{t}.cfg"),
+                    "c12_seg", workers=6, timeout=1800, coverage=False)
+    if r2.violated:
+        v.failure({"kind": "model", "invariant": r2.violated}, {"tlc_output": r2.output[-3000:]})
+    if r2.distinct < 1000:
+        raise common.ToolError("vacuous MC_Segments run")
+    v.add_mc(f"MC_Segments/{t}", r2, "every token-kind string over {word, space, comma, period, paragraph break} up to MaxLen: the "
+             "chunk / sentence / paragraph iterators as written = cut after every terminator; each is a partition, nothing "
+             "continues across a paragraph break, the three levels nest, and cutting after a terminator splits the cutting")
+    # the two deviations a seeded change introduced must be refuted by the same invariants
+    for dev in ("middle", "drop"):
+        rd = common.tlc(os.path.join(SPEC, "mc", "MC_Segments.tla"), os.path.join(SPEC, "mc", f"MC_Segments_dev_{dev}.cfg"),
+                        "c12_segdev", workers=2, timeout=600, coverage=False)
+        if rd.violated != "AlgSatisfiesProperty":
+            raise common.ToolError(f"MC_Segments deviation {dev} is not refuted: the invariants are vacuous")
     _, corp = corpus.harvest()
     trace = os.path.join(wd, "trace.ndjson")
     rc, out, err = common.run_hv(["c12", "--out", trace, "--seed", v.seed, "--corpus", corp,
@@ -54,7 +72,9 @@ def run(v):
                      "ending in a number, a one-letter word or an abbreviation) + a blank line; D = corpus sentences, "
                      "composed documents, sentence prefixes, and short texts that start with tokens the condensing "
                      "passes merge (suffixes, apostrophes, periods, digits); all rules on, one long-lived linter per "
-                     "worker; distinct = distinct pairs where both parts have lints")
+                     "worker; distinct = distinct pairs where both parts have lints. Every 4th joined document, Markdown "
+                     "documents and hand-picked edge texts also give a Seg event: the slices of iter_chunks / iter_sentences / "
+                     "iter_paragraphs on the real token list against SegmentsOps")
     return v.finish()
 
 
